@@ -1,5 +1,5 @@
-(* C08 -- denotation of SMARTS texts with branches AND ring closures (single closure digits 1-9, optionally preceded by a bond
-   spelling; the %nn form is not covered at the text level):
+(* C08 -- denotation of SMARTS texts with branches AND ring closures (closure numbers 1-9 and %10 .. %99, optionally preceded by a
+   bond spelling):
      tree := atom ( bond digit )* ( "(" bond tree ")" )* ( bond tree )?
    The tokenizer produces the tokens of Proofs.SmartsRing; smarts_full builds the atoms in the order written, the bonds of the
    tree, and for every pair of equal digits a bond between the two atoms that carry them. *)
@@ -19,6 +19,15 @@ Definition digit_char (d : digit) : ascii :=
   match d with D1 => "1" | D2 => "2" | D3 => "3" | D4 => "4" | D5 => "5" | D6 => "6" | D7 => "7" | D8 => "8" | D9 => "9" end%char.
 Definition digit_val (d : digit) : Z := match d with D1 => 1 | D2 => 2 | D3 => 3 | D4 => 4 | D5 => 5 | D6 => 6 | D7 => 7 | D8 => 8 | D9 => 9 end.
 
+(* a closure number: one digit 1-9, or %nn with nn = 10 .. 99 *)
+Inductive digit0 := Z0' | Zd (d : digit).
+Inductive cnum := CD (d : digit) | CP (d1 : digit) (d2 : digit0).
+Definition digit0_char (d : digit0) : ascii := match d with Z0' => "0"%char | Zd d => digit_char d end.
+Definition digit0_val (d : digit0) : Z := match d with Z0' => 0 | Zd d => digit_val d end.
+Definition cnum_text (c : cnum) : list ascii :=
+  match c with CD d => [digit_char d] | CP d1 d2 => ["%"%char; digit_char d1; digit0_char d2] end.
+Definition cnum_val (c : cnum) : Z := match c with CD d => digit_val d | CP d1 d2 => 10 * digit_val d1 + digit0_val d2 end.
+
 Ltac cases_d Hs :=
   unfold dpre, bef, bondpre, aft, pendCB in Hs; cbn [t_type t_pend In] in Hs;
   repeat match goal with H : _ \/ _ |- _ => destruct H | H : _ /\ _ |- _ => destruct H | H : False |- _ => destruct H end; subst.
@@ -26,6 +35,13 @@ Ltac cases_d Hs :=
 Lemma digit_loop d st rest : dpre st ->
   tok_loop tok_step st (digit_char d :: rest) = tok_loop tok_step (mkT (Some 6) PdNone ((6, PInt (digit_val d)) :: flushed st)) rest.
 Proof. intros Hs. destruct st as [ty pd toks]. cases_d Hs; destruct d; reflexivity. Qed.
+
+Lemma cnum_loop c st rest : dpre st ->
+  tok_loop tok_step st (cnum_text c ++ rest) = tok_loop tok_step (mkT (Some 6) PdNone ((6, PInt (cnum_val c)) :: flushed st)) rest.
+Proof.
+  intros Hs. destruct c as [d|d1 d2]; [apply (digit_loop d st rest Hs)|].
+  destruct st as [ty pd toks]. cases_d Hs; destruct d1; destruct d2 as [|d2]; try destruct d2; reflexivity.
+Qed.
 
 Lemma bond_loop_d b st rest : aft st -> bond_ok b ->
   exists st', dpre st' /\ flushed st' = (optb (bond_token b) ++ flushed st)%list /\
@@ -42,7 +58,7 @@ Proof.
 Qed.
 
 (* ---------------------------------------------------------------- texts *)
-Definition xitem := (bspell * digit)%type.
+Definition xitem := (bspell * cnum)%type.
 Inductive xtree := XNode (a : tatom) (p : Query.parsed) (cls : list xitem) (kids : xforest)
 with xforest :=
 | XNil
@@ -52,8 +68,8 @@ Scheme xtree_mind := Induction for xtree Sort Prop
 with xforest_mind := Induction for xforest Sort Prop.
 Combined Scheme xtree_xforest_mind from xtree_mind, xforest_mind.
 
-Definition item_text (x : xitem) : list ascii := (spell_bond (fst x) ++ [digit_char (snd x)])%list.
-Definition item_raw (x : xitem) : list token := (optb (bond_token (fst x)) ++ [(6, PInt (digit_val (snd x)))])%list.
+Definition item_text (x : xitem) : list ascii := (spell_bond (fst x) ++ cnum_text (snd x))%list.
+Definition item_raw (x : xitem) : list token := (optb (bond_token (fst x)) ++ [(6, PInt (cnum_val (snd x)))])%list.
 Fixpoint text_xtree (t : xtree) : list ascii :=
   match t with XNode a _ cls f => (atom_text a ++ flat_map item_text cls ++ text_xforest f)%list end
 with text_xforest (f : xforest) : list ascii :=
@@ -79,7 +95,7 @@ with xok_forest (f : xforest) : Prop :=
   | XNext b t => bond_ok b /\ xok_tree t
   end.
 Fixpoint to_rtree (t : xtree) : rtree :=
-  match t with XNode _ p cls f => RNode p (map (fun x => (bond_token (fst x), digit_val (snd x))) cls) (to_rforest f) end
+  match t with XNode _ p cls f => RNode p (map (fun x => (bond_token (fst x), cnum_val (snd x))) cls) (to_rforest f) end
 with to_rforest (f : xforest) : rforest :=
   match f with
   | XNil => RNil
@@ -94,10 +110,10 @@ Proof.
   induction cls as [|[b d] r IH]; intros st rest Hs Hok.
   - exists st. split; [exact Hs|]. split; reflexivity.
   - inversion Hok as [|? ? Hb Hr]; subst. cbn [fst] in Hb. cbn [flat_map]. unfold item_text at 1, item_raw at 1. cbn [fst snd].
-    rewrite <- !app_assoc. cbn [app].
-    destruct (bond_loop_d b st (digit_char d :: flat_map item_text r ++ rest) Hs Hb) as [s1 [D1' [F1 E1]]]. rewrite E1.
-    rewrite (digit_loop d s1 _ D1').
-    destruct (IH (mkT (Some 6) PdNone ((6, PInt (digit_val d)) :: flushed s1)) rest ltac:(left; split; [reflexivity | cbn; tauto]) Hr)
+    rewrite <- !app_assoc.
+    destruct (bond_loop_d b st (cnum_text d ++ flat_map item_text r ++ rest) Hs Hb) as [s1 [D1' [F1 E1]]]. rewrite E1.
+    rewrite (cnum_loop d s1 _ D1').
+    destruct (IH (mkT (Some 6) PdNone ((6, PInt (cnum_val d)) :: flushed s1)) rest ltac:(left; split; [reflexivity | cbn; tauto]) Hr)
       as [s2 [A2 [F2 E2]]].
     exists s2. split; [exact A2|]. split; [|exact E2].
     rewrite F2. cbn [flushed truthy t_pend t_toks]. rewrite F1. rewrite !rev_app_distr. cbn [rev app]. rewrite <- !app_assoc. cbn [app].
@@ -157,15 +173,15 @@ Definition SX_forest (f : xforest) : Prop := forall rest toks ps, xok_forest f -
 
 Lemma split_items cls : forall rest toks ps, Forall (fun x => bond_ok (fst x)) cls -> split_tokens rest = Ok (toks, ps) ->
   split_tokens (flat_map item_raw cls ++ rest) =
-  Ok ((flat_map item_tokens (map (fun x => (bond_token (fst x), digit_val (snd x))) cls) ++ toks)%list, ps).
+  Ok ((flat_map item_tokens (map (fun x => (bond_token (fst x), cnum_val (snd x))) cls) ++ toks)%list, ps).
 Proof.
   induction cls as [|[b d] r IH]; intros rest toks ps Hok H; [exact H|].
   inversion Hok as [|? ? Hb Hr]; subst. cbn [fst] in Hb. cbn [flat_map map]. unfold item_raw at 1, item_tokens at 1. cbn [fst snd].
   rewrite <- !app_assoc. cbn [app].
   assert (R := IH rest toks ps Hr H).
-  assert (C : split_tokens ((6, PInt (digit_val d)) :: flat_map item_raw r ++ rest) =
-              Ok ((6, PInt (digit_val d)) :: flat_map item_tokens (map (fun x => (bond_token (fst x), digit_val (snd x))) r) ++ toks, ps)%list).
-  { apply (split_step (6, PInt (digit_val d)) _ _ _ (STok (6, PInt (digit_val d))) eq_refl R). }
+  assert (C : split_tokens ((6, PInt (cnum_val d)) :: flat_map item_raw r ++ rest) =
+              Ok ((6, PInt (cnum_val d)) :: flat_map item_tokens (map (fun x => (bond_token (fst x), cnum_val (snd x))) r) ++ toks, ps)%list).
+  { apply (split_step (6, PInt (cnum_val d)) _ _ _ (STok (6, PInt (cnum_val d))) eq_refl R). }
   etransitivity; [exact (split_optb b _ _ _ Hb C)|]. reflexivity.
 Qed.
 
@@ -219,16 +235,16 @@ Qed.
 
 (* non-vacuity: a ring with a branch, bracket and unbracketed atoms, a closure bond written at one end *)
 Definition ex_xtree : xtree :=
-  XNode (TBr (s2l "C;D3")) (qp "C;D3") [(BNone, D1)]
+  XNode (TBr (s2l "C;D3")) (qp "C;D3") [(BNone, CP D1 (Zd D2))]
     (XBranch (BCore (CSym Bdouble) None) (XNode (TSym UO) (simple_query "O") [] XNil)
     (XNext BNone (XNode (TSym Uc) (simple_query "C") []
-       (XNext (BCore (COr Bsingle Bdouble) None) (XNode (TSym UN) (simple_query "N") [(BCore (CSym Bsingle) (Some true), D1)] XNil))))).
+       (XNext (BCore (COr Bsingle Bdouble) None) (XNode (TSym UN) (simple_query "N") [(BCore (CSym Bsingle) (Some true), CP D1 (Zd D2))] XNil))))).
 Theorem ring_text_example :
   xok_tree ex_xtree /\
-  string_of_list_ascii (text_xtree ex_xtree) = "[C;D3]1(=O)c-,=N-;@1"%string /\
+  string_of_list_ascii (text_xtree ex_xtree) = "[C;D3]%12(=O)c-,=N-;@%12"%string /\
   den_root (to_rtree ex_xtree) = Some ([], [(1, 0, PInt 2); (2, 0, PInt 1); (3, 2, PZs [1; 2]); (3, 0, PQB [1] true)]) /\
   distinct_pairs [] [(1, 0, PInt 2); (2, 0, PInt 1); (3, 2, PZs [1; 2]); (3, 0, PQB [1] true)] /\
-  smarts_full "[C;D3]1(=O)c-,=N-;@1" =
+  smarts_full "[C;D3]%12(=O)c-,=N-;@%12" =
   Ok ([(QElem 6 None (mkQX 0 false [3] [] [] [] [] false), None); (QElem 8 None (mkQX 0 false [] [] [] [] [] false), None);
        (QElem 6 None (mkQX 0 false [] [] [] [] [] false), None); (QElem 7 None (mkQX 0 false [] [] [] [] [] false), None)],
       [mkSB 1 0 (mkQB [2] None) None; mkSB 2 0 (mkQB [1] None) None; mkSB 3 2 (mkQB [1; 2] None) None; mkSB 3 0 (mkQB [1] (Some true)) None]).
